@@ -54,6 +54,26 @@ def enumerate_family(cfgs, relax=(), name='MC', simulate=None, depth=None, seed=
         shutil.rmtree(wd, ignore_errors=True)
 
 
+def lattice_optima(cfgs, name='MCval', workers=16, timeout=3000):
+    """lattice optimum (numerator over DEN*VS) of every configuration: TLC enumerates, only values are emitted"""
+    import re
+    wd = tlc.scratch()
+    try:
+        defs = {'MCConfigs': '{' + ',\n   '.join(tlc.tla(tla_cfg(c)) for c in cfgs) + '}', 'MCRelax': '{}'}
+        lines = ['SPECIFICATION Spec', 'CONSTANT Configs <- MCConfigs', 'CONSTANT Relax <- MCRelax', 'CONSTRAINT EmitVal', 'CHECK_DEADLOCK FALSE',
+                 'INVARIANT ValDef', 'INVARIANT BalanceInv']
+        tlc.write_mc(wd, name, 'EAOModel', defs, lines)
+        r = tlc.run_tlc(wd, name, workers=workers, timeout=timeout, tags=(), json_payload=False)
+        best = {}
+        for m in re.finditer(r'<<"VAL", (\d+), (-?\d+)>>', r['out']):
+            cid, v = int(m.group(1)), int(m.group(2))
+            if cid not in best or v > best[cid]:
+                best[cid] = v
+        return best, dict(generated=r['generated'], distinct=r['distinct'], violated=r['violated'])
+    finally:
+        shutil.rmtree(wd, ignore_errors=True)
+
+
 class Conformer:
     """binds one realisation of one cfg to the behaviours TLC emitted for that cfg"""
 
